@@ -438,3 +438,144 @@ Print Assumptions C13_block_entity.
 Print Assumptions C13_robust_parts.
 Print Assumptions C13_count.
 Print Assumptions C13_count_empty.
+
+(* ==================== PHASE 4: the tie to level/chunk.go by TRANSLATION ====================
+   tools/gotrans/c13.go translates level/chunk.go on every run into Gen/C13gen.v: every function body as a
+   statement tree, the element lists of the pk.Tuple literals (the wire order), the height-map tables, and
+   the integer expressions / conditions as definitions over Z with Go's wrap semantics. *)
+From Coq Require Import String.
+From GoMC Require Import Base.GoInt Model.C13_syntax Gen.C13gen Proofs.C13_expected Proofs.C13_skel Proofs.C13_tie
+  Proofs.C13_skel_interp Proofs.C13_tie_rt.
+
+(* every translated body, element list and table equals the copy recorded when the model was reconciled *)
+Theorem C13_skeletons_ok : all_skel_ok.
+Proof. exact all_skeletons_ok. Qed.
+
+(* INTERPRETATION: the model's writers and readers ARE the element-by-element interpretation of the
+   translated lists, for every value / every destination / every input *)
+Theorem C13_section_interpretation :
+  forall (cont : Type) (pc_write : cont -> list N) (pc_read : bool -> cont -> dec (cont * N)),
+  (forall b d, robust (pc_read b d)) ->
+  forall s inp,
+  interp_w (sec_wenv cont pc_write s) c13_Section_WriteTo_fields = Some (sec_write cont pc_write s) /\
+  run_flat (interp_r (sec_renv cont pc_read) c13_Section_ReadFrom_fields s) inp = run_flat (sec_read cont pc_read s) inp.
+Proof. intros. split; [apply sec_write_interp|apply sec_read_interp; assumption]. Qed.
+Theorem C13_block_entity_interpretation : forall fuel b oldv inp,
+  interp_w (be_wenv b) c13_BlockEntity_WriteTo_fields = Some (fst (be_write (bent_val b))) /\
+  run_flat (be_read fuel oldv) inp =
+  match run_flat (interp_r (be_renv fuel) c13_BlockEntity_ReadFrom_fields (val_bent oldv, 0)) inp with
+  | FOk (b, n) r => FOk (bent_val b, n) r
+  | FErr e => FErr e | FPanic w => FPanic w | FFuel => FFuel
+  end.
+Proof. intros. split; [apply be_write_interp|apply be_read_interp]. Qed.
+Theorem C13_light_interpretation : forall sky blk,
+  fields_fty light_tenv c13_lightData_WriteTo_fields = Some t_light /\
+  fields_fty light_tenv c13_lightData_ReadFrom_fields = Some t_light /\
+  fields_val (light_venv sky blk) c13_lightData_WriteTo_fields = Some (light_val sky blk).
+Proof. intros. split; [apply light_fields_type|]. split; [apply light_fields_type|apply light_fields_value]. Qed.
+Theorem C13_chunk_interpretation :
+  forall (cont : Type) (pc_write : cont -> list N) (pc_read : bool -> cont -> dec (cont * N)) (c d : chunk cont) fuel inp,
+  chunk_write cont pc_write c =
+    (if 4096 <? lenN (c_secs c) then None else interp_w (chunk_wenv cont pc_write c) c13_Chunk_WriteTo_fields) /\
+  run_flat (chunk_read cont pc_read fuel d) inp =
+    run_flat (s <- interp_r (chunk_renv cont fuel d) c13_Chunk_ReadFrom_fields (mkRS (None, None) VUnit VUnit 0) ;;
+              chunk_tail cont pc_read d s) inp.
+Proof. intros. split; [apply chunk_write_interp|apply chunk_read_interp]. Qed.
+Theorem C13_heightmap_tables_translated :
+  map (fun r => (fst (fst (fst r)), bytes_of_string (snd (fst (fst r))))) c13_ChunkFromSave_heightmaps =
+    [("WorldSurface", kWS); ("WorldSurfaceWG", kWSWG); ("OceanFloorWG", kOFWG); ("OceanFloor", kOF);
+     ("MotionBlocking", kMB); ("MotionBlockingNoLeaves", kMBNL)]%string /\
+  map (fun r => (bytes_of_string (fst r), snd r)) c13_ChunkToSave_heightmaps =
+    [(kWSWG, "WorldSurfaceWG"); (kWS, "WorldSurface"); (kOFWG, "OceanFloorWG"); (kOF, "OceanFloor");
+     (kMB, "MotionBlocking"); (kMBNL, "MotionBlockingNoLeaves")]%string /\
+  map (fun r => (fst (fst r), bytes_of_string (snd (fst r)), snd r)) c13_Chunk_ReadFrom_struct =
+    [("MotionBlocking", nameMB, "[]uint64"); ("WorldSurface", nameWS, "[]uint64")]%string.
+Proof. pose proof heightmap_tables as (H1 & _ & H3 & _ & H5). auto. Qed.
+
+(* EXPRESSIONS: the translated expressions are the model's, for all arguments in the stated ranges *)
+Theorem C13_PackXZ_translated : forall x z,
+  pack_xz x z = (if c13_BlockEntity_PackXZ_reject x z then None else Some (c13_BlockEntity_PackXZ_value x z)) /\
+  unpack_xz x = (c13_BlockEntity_UnpackXZ_X x, c13_BlockEntity_UnpackXZ_Z x).
+Proof. intros. split; [apply tie_PackXZ|apply tie_UnpackXZ]. Qed.
+(* what PackXZ / UnpackXZ compute: a 4+4 bit packing into an int8, rejected outside 0..15 *)
+Theorem C13_PackXZ : forall x z,
+  ((0 <= x <= 15)%Z -> (0 <= z <= 15)%Z ->
+     exists p, pack_xz x z = Some p /\ unpack_xz p = (x, z) /\ (-128 <= p < 128)%Z) /\
+  (~ ((0 <= x <= 15)%Z /\ (0 <= z <= 15)%Z) -> pack_xz x z = None).
+Proof. intros. split; [apply pack_unpack_all|apply pack_rejects]. Qed.
+Theorem C13_save_index_translated : forall y ypos i secs,
+  ((-128 <= y < 128)%Z -> sx32 (u32 (y - ypos)) = c13_ChunkFromSave_index y ypos) /\
+  ((0 <= secs < 2^31)%Z -> ((i <? 0) || (secs <=? i))%Z = c13_ChunkFromSave_out_of_bounds i secs) /\
+  sx8 (u8 (i + ypos)) = c13_ChunkToSave_Y i ypos.
+Proof. intros. split; [apply tie_FromSave_index|]. split; [apply tie_FromSave_bounds|apply tie_ToSave_Y]. Qed.
+Theorem C13_heightmap_geometry_translated : forall (n : N) raw want, n < 2^59 ->
+  hm_bits n = c13_Chunk_ReadFrom_bitsForHeight (Z.of_N n) /\
+  hm_bits n = c13_ChunkFromSave_bitsForHeight (Z.of_N n) /\
+  hm_bits n = c13_EmptyChunk_heightmap_bits_0 (Z.of_N n) /\
+  ((0 <= hm_bits n <= 64)%Z -> calc_size (hm_bits n) hm_len = Some want ->
+   want = c13_Chunk_ReadFrom_wantLen (hm_bits n) /\ want = c13_ChunkFromSave_wantLen (hm_bits n) /\
+   hm_len_bad n raw =
+     Ret (c13_Chunk_ReadFrom_bad_heightmap (match raw with None => true | Some _ => false end)
+            (match raw with None => 0%Z | Some l => Z.of_N (lenN l) end) want)).
+Proof.
+  intros n raw want Hn. destruct (tie_bitsForHeight n Hn) as (A & B & C).
+  split; [exact A|]. split; [exact B|]. split; [exact C|]. intros. apply tie_hm_len_bad; assumption.
+Qed.
+Theorem C13_constants_translated :
+  sec_len = c13_EmptyChunk_NewStatesPaletteContainer_length /\ bio_len = c13_EmptyChunk_NewBiomesPaletteContainer_length /\
+  hm_len = c13_EmptyChunk_heightmap_len_0 /\ sec_len = c13_countNoneAirBlocks_bound /\
+  c13_Chunk_WriteTo_mask_len_0 = 64%Z /\ c13_Chunk_ReadFrom_mask_len_0 = 64%Z /\
+  (forall cnt, sx16 (u16 (cnt - 1)) = c13_Section_SetBlock_dec cnt /\ sx16 (u16 (cnt + 1)) = c13_Section_SetBlock_inc cnt).
+Proof.
+  pose proof tie_constants as (A & B & C & D & _ & _ & E & _ & F & _).
+  repeat split; auto; apply tie_SetBlock.
+Qed.
+
+(* THE HEADLINE THEOREMS OVER THE INTERPRETATION of the translated lists *)
+Theorem C13_section_translated :
+  forall (cont : Type) (pc_write : cont -> list N) (pc_read : bool -> cont -> dec (cont * N))
+         (X : Type) (pc_abs : cont -> X) (pc_good : cont -> Prop) (pc_compat : cont -> cont -> Prop),
+  (forall b d, robust (pc_read b d)) ->
+  (forall b c d rest, pc_good c -> pc_compat c d ->
+     exists c' n, run_flat (pc_read b d) (pc_write c ++ rest) = FOk (c', n) rest /\ pc_abs c' = pc_abs c) ->
+  forall s d rest, sec_ok cont pc_good pc_compat s d ->
+  exists img s', interp_w (sec_wenv cont pc_write s) c13_Section_WriteTo_fields = Some img /\
+    run_flat (interp_r (sec_renv cont pc_read) c13_Section_ReadFrom_fields d) (img ++ rest) = FOk s' rest /\
+    sec_rel cont X pc_abs s d s'.
+Proof. exact section_translated. Qed.
+Theorem C13_block_entity_translated : forall fuel b oldv rest, bent_ok b -> (List.length (e_data b) < fuel)%nat ->
+  exists img, interp_w (be_wenv b) c13_BlockEntity_WriteTo_fields = Some img /\
+    run_flat (interp_r (be_renv fuel) c13_BlockEntity_ReadFrom_fields (val_bent oldv, 0)) (img ++ rest) = FOk (b, lenN img) rest.
+Proof. exact block_entity_translated. Qed.
+Theorem C13_wire_translated :
+  forall (cont : Type) (pc_write : cont -> list N) (pc_read : bool -> cont -> dec (cont * N))
+         (X : Type) (pc_abs : cont -> X) (pc_good : cont -> Prop) (pc_compat : cont -> cont -> Prop),
+  (forall b d, robust (pc_read b d)) ->
+  (forall b c d rest, pc_good c -> pc_compat c d ->
+     exists c' n, run_flat (pc_read b d) (pc_write c ++ rest) = FOk (c', n) rest /\ pc_abs c' = pc_abs c) ->
+  forall (c d : chunk cont), chunk_ok cont pc_write pc_good pc_compat c d ->
+  exists img, (if 4096 <? lenN (c_secs c) then None else interp_w (chunk_wenv cont pc_write c) c13_Chunk_WriteTo_fields) = Some img /\
+  forall rest fuel, (List.length (img ++ rest) + 68 <= fuel)%nat ->
+  exists c', run_flat (s <- interp_r (chunk_renv cont fuel d) c13_Chunk_ReadFrom_fields (mkRS (None, None) VUnit VUnit 0) ;;
+                       chunk_tail cont pc_read d s) (img ++ rest) = FOk (c', lenN img) rest /\
+    Forall3 (sec_rel cont X pc_abs) (c_secs c) (c_secs d) (c_secs c') /\
+    hMB (c_hm c') = hMB (c_hm c) /\ hWS (c_hm c') = hWS (c_hm c) /\
+    hWSWG (c_hm c') = hWSWG (c_hm d) /\ hOFWG (c_hm c') = hOFWG (c_hm d) /\
+    hOF (c_hm c') = hOF (c_hm d) /\ hMBNL (c_hm c') = hMBNL (c_hm d) /\
+    c_bes c' = c_bes c /\ c_status c' = c_status d.
+Proof. exact wire_translated. Qed.
+
+Print Assumptions C13_skeletons_ok.
+Print Assumptions C13_section_interpretation.
+Print Assumptions C13_block_entity_interpretation.
+Print Assumptions C13_light_interpretation.
+Print Assumptions C13_chunk_interpretation.
+Print Assumptions C13_heightmap_tables_translated.
+Print Assumptions C13_PackXZ_translated.
+Print Assumptions C13_PackXZ.
+Print Assumptions C13_save_index_translated.
+Print Assumptions C13_heightmap_geometry_translated.
+Print Assumptions C13_constants_translated.
+Print Assumptions C13_section_translated.
+Print Assumptions C13_block_entity_translated.
+Print Assumptions C13_wire_translated.
